@@ -12,7 +12,10 @@ NOT_APPLICABLE = [
      "parse_lifecycles_buffered_from_stream + evmap: kani-compiler crashes on std::sync::mpsc send/recv; with recv/evmap replaced by "
      "models the real loop (HashMap, HashSet, VecDeque) did not finish a 2-message stream in 40 min; one real evmap update+refresh+read > 15 min / 9 GB"},
     {"property_id": "C10", "reason": "buffer_sort_messages takes a Receiver and an evmap read handle and keeps its window state in a std HashMap captured by "
-     "closures; with channel and table stubbed a 2-message run crashed CBMC (signal 11) after 35 min; release rule and threshold are closures inside that function"},
+     "closures; with channel and table stubbed a 2-message run crashed CBMC (signal 11) after 35 min. Second attempt (harness/sort.rs + cut extract_sorter, kept unregistered): "
+     "the function's body pasted verbatim with Receiver -> Vec, evmap -> constant table, HashMap/BTreeMap -> fixed-array association lists: 1 message decides in 175 s / 4.3 GB, "
+     "2 messages end in CBMC 'VERIFICATION ERROR' above 50 GB (how many messages sit in the BinaryHeap depends on the data, so every push/pop moves 144-byte elements at symbolic "
+     "positions); a 1-message stream plus the comparator (c10_sorted_msg_order, 0.5 s) do not decide the property, so nothing is claimed"},
     {"property_id": "C14", "reason": "whole-program property over clap parsing, files, six threads and channels; the selection logic is a closure in a spawned thread "
      "inside a 700-line function; Kani does not model threads; building blocks are covered by C01/C02/C09/C11/C12"},
     {"property_id": "C15", "reason": "websocket server, threads, JSON, file system, Instant: one 550-line function around WebSocket<T>; not encodable for CBMC"},
